@@ -26,6 +26,11 @@ tagged only if EVERY leaked occurrence in it is explained):
   F-C10-5  (proposed; the quantifier's "raw HTML") inline raw HTML (tag, comment, PI in running text) enclosing a link whose
            text carries inline markup (one-level `unescape` of HtmlInlineProcessor): complete inline placeholder in text;
            input has `[` inside `<...`.
+  F-C10-6  abbr: a digits-only abbreviation is wrapped inside a placeholder: STX [wzxhzdk:] <abbr ...>digits</abbr> ETX;
+           abbr/extra enabled; input defines `*[digits]:`.
+  F-C10-7  (proposed) after a stray `&#` (two-phase parse of html.parser, cf. F-C04-1/2) an end tag directly before a fenced block is
+           re-spelt from the wrong offsets and swallows the head of the fence's placeholder: a proper suffix of it that still
+           has its index and ETX (`zxhzdk:N` ETX, `N` ETX); fenced_code/extra enabled; input has `&#` ... `</tag` ... line break, fence.
   with toc enabled, copies of an F-C10-1/-5 leak of a heading in the toc div / heading id are knock-on effects of that leak.
 REPORT_QUANTIFIER_EXCLUDED: F-C10-4/-5 are regions the property's quantifier excludes; when False they are only counted.
 
@@ -72,18 +77,44 @@ FINDINGS = [
     {'id': 'F-C10-5', 'property': 'C10', 'status': 'open',
      'what': 'PROPOSED (quantifier: raw HTML): inline raw HTML enclosing a link with marked-up text leaves the inner placeholder in the output',
      'witness': {'text': 'a <!-- [*x*](u) --> b', 'extensions': []}},
+    {'id': 'F-C10-6', 'property': 'C10', 'status': 'open',
+     'what': 'abbr: a digits-only abbreviation is wrapped where it occurs inside a placeholder (code point of an escaped character, raw-HTML stash index); the placeholder is then never restored',
+     'witness': {'text': 'a \\* b 42\n\n*[42]: the answer', 'extensions': ['abbr']}},
+    {'id': 'F-C10-7', 'property': 'C10', 'status': 'open',
+     'what': 'PROPOSED: after a stray `&#` (html.parser two-phase parse, cf. F-C04-1/2) an unterminated end tag directly before a fenced block swallows the head of the fence placeholder: `zxhzdk:0` + ETX in the output, code block lost',
+     'witness': {'text': 's\n&#;</s\n```\nx\n```\n>', 'extensions': ['fenced_code']}},
 ]
 
 # ------------------------------------------------------------------ classification of a leaking output
 _NEST = re.compile(r'\[[^\]]*\[|\]\s?\([^)]*\[|\]\s?\((?s:.*?)["\'](?s:.*?)\[')      # a `[` nested in [..] or in ](..)
 _QDEST = re.compile(r'\]\((?s:.*?)["\']')
 _BRACE = re.compile(r'\{[^}]*[&<][^}]*\}|\{[^}]*[&<]')
-_RAWBR = re.compile(r'<!--(?s:.*?)\[|<\?(?s:.*?)\[|<[/A-Za-z][^>]*\[')
+_RAWBR = re.compile(r'<!--(?s:.*?)(?:\[|<[A-Za-z])|<\?(?s:.*?)(?:\[|<[A-Za-z])|<[/A-Za-z][^>]*(?:\[|<[A-Za-z])')    # a link or an autolink inside inline raw HTML
+_BSESC = re.compile(r'\\.', re.S)
 _ATTRNAME = re.compile(r'\s(?:[^\s=<>"%s%s]*?_?%s:[0-9]+)+_[^\s=<>"%s%s]*="' % (STX, ETX, RAW, STX, ETX))
 _VALUE = re.compile(r'\s(href|src|title|alt)="([^"]*)"')
 _CODE = re.compile(r'(<code[^>]*>)(.*?)</code>', re.S)
 _ANYFULL = re.compile('%s[^%s%s]*%s' % (STX, STX, ETX, ETX))
 _TRUNC2 = re.compile('%s[^%s%s"<>]*(?=")' % (STX, STX, ETX))
+_AMPTAGFENCE = re.compile(r'&#(?s:.*?)</[A-Za-z][^\n]*\n[ ]*(?:```|~~~)')
+_TAILPH = re.compile('([%s]?)((?:[wzxhdk]{0,7}:)?)([0-9]+)%s' % (STX, ETX))
+
+
+def _drop_headless(work):
+    """remove raw-HTML placeholders that lost their head: a proper suffix of `STX wzxhzdk:N ETX` that still has N and ETX"""
+    def fix(m):
+        if m.group(1) and m.group(2) == RAW + ':':
+            return m.group(0)                      # complete
+        if m.group(1) and not m.group(2):
+            return m.group(0)                      # an escape placeholder STX digits ETX: not this region
+        if m.group(2) and not (RAW + ':').endswith(m.group(2)):
+            return m.group(0)
+        return ''
+    return _TAILPH.sub(fix, work)
+
+
+_ABBRDIG = re.compile(r'[*]\[[ ]*[0-9]+[ ]*\][ ]?:')       # the definition may sit inside a list item, quote, admonition ...
+_ABBRLEAK = re.compile('%s(?:%s:)?<abbr title="[^"]*">[0-9]+</abbr>%s' % (STX, RAW, ETX))
 _FULL_INL = re.compile('%s%s:[0-9]{4}%s' % (STX, INL, ETX))
 _TRUNC = re.compile('%s[^%s"]*$' % (STX, ETX))
 _ESC = re.compile('%s[0-9]+%s' % (STX, ETX))
@@ -114,7 +145,18 @@ def classify(text, exts, out):
         w2 = _ATTRNAME.sub(' x="', work)
         if w2 != work:
             note('F-C10-3', 'attr-name'); work = w2
-    nest = bool(_NEST.search(text)); qdest = bool(_QDEST.search(text))
+    # F-C10-6: abbr wraps a digits-only term where it occurs INSIDE a placeholder (code point of an escape, index of the raw-HTML stash)
+    if ({'abbr', 'extra'} & exts) and _ABBRDIG.search(text):
+        w2 = _ABBRLEAK.sub('', work)
+        if w2 != work:
+            note('F-C10-6', 'abbr-in-placeholder'); work = w2
+    # F-C10-7: after a stray `&#` an unterminated end tag right before a fenced block swallows the head of the fence's placeholder
+    if ({'fenced_code', 'extra'} & exts) and _AMPTAGFENCE.search(text):
+        w2 = _drop_headless(work)
+        if w2 != work:
+            note('F-C10-7', 'headless-raw-placeholder'); work = w2
+    bare = _BSESC.sub('', text)        # backslash-escaped brackets are not brackets
+    nest = bool(_NEST.search(bare)); qdest = bool(_QDEST.search(text))
     # F-C10-1 / F-C10-2: values of href/src/title/alt
     cuts = 0
 
@@ -169,7 +211,7 @@ def classify(text, exts, out):
         return None, shapes + ['unexplained:' + repr(work[max(0, m.start() - 25):m.end() + 25])]
     if not found:
         return None, shapes + ['toc-copy-only']
-    for fid in ('F-C10-1', 'F-C10-2', 'F-C10-3', 'F-C10-5', 'F-C10-4'):
+    for fid in ('F-C10-1', 'F-C10-2', 'F-C10-3', 'F-C10-5', 'F-C10-4', 'F-C10-6', 'F-C10-7'):
         if fid in found:
             return fid, shapes
     return None, shapes
